@@ -203,7 +203,7 @@ func (r *lineRun) find(m int, keys []string) (int, *Datum) {
 }
 
 func (r *lineRun) stamp(d *Datum) {
-	if r.timeSet {
+	if r.timeSet && !(r.sec == -62135596800 && r.nsec == 0) { // Go's zero Time = "not set"
 		d.TKind, d.TNs = TimeAt, r.sec*1e9+r.nsec
 	} else {
 		d.TKind, d.TNs = TimeNow, 0
@@ -299,9 +299,9 @@ func (r *lineRun) eval(e *Expr) Val {
 		case ">":
 			res = gt
 		case "<=":
-			res = lt || eq
+			res = !gt // "not >": equal to "< or ==" except for NaN, which the reference does not define
 		case ">=":
-			res = gt || eq
+			res = !lt
 		case "==":
 			res = eq
 		case "!=":
@@ -361,7 +361,7 @@ func (r *lineRun) eval(e *Expr) Val {
 		}
 		return Val{T: TInt, I: v}
 	case "timestamp":
-		if !r.timeSet {
+		if !r.timeSet || (r.sec == -62135596800 && r.nsec == 0) {
 			return Val{T: TInt, I: time.Now().Unix()}
 		}
 		return Val{T: TInt, I: r.sec}
